@@ -139,3 +139,137 @@ def unit_is_particle_conserving(nterms, nmodes, timeout_ms=10000):
                  functions=[(MODULE, "NumberOrderedForm.is_particle_conserving")], timeout_ms=timeout_ms)
     r.bounded.append(f"{nterms} terms over {nmodes} modes (powers symbolic)")
     return r
+
+
+# ---- as_expr -------------------------------------------------------------------------------------------
+
+def unit_as_expr(nops=2, nterms=2, timeout_ms=20000):
+    """NumberOrderedForm.as_expr: the expression handed back to sympy is, term by term, the WORD the other contracts take as the meaning of a term
+    (contracts/nof.py, Fock.apply_term):   c_0^+^{r_0} ... c_{k-1}^+^{r_{k-1}}  f(N)  c_{k-1}^{s_{k-1}} ... c_0^{s_0}   with r_j = max(-p_j, 0), s_j = max(p_j, 0):
+      * creation operators left of the coefficient in operator order, annihilation operators right of it in reverse operator order, each at most once, with the
+        exponent |p_j|; a mode with p_j = 0 contributes no factor;
+      * the coefficient occurs exactly once, between them, with the number-operator placeholders replaced (xreplace with the form's own map);
+      * the result is the sum of the terms' words (starting from Zero), one summand per term, in term order;
+      * a form without operators is its constant (Zero if it has no term).
+    Values are words over opaque factors with a non-commutative product; what sympy's Mul does with factors it regards as commutative is NOT part of this contract
+    (known finding F-ASEXPR)."""
+    node = frontend.find(MODULE, "NumberOrderedForm.as_expr")
+
+    class W(Model):
+        """a product of factors: ('coef', token) | ('op', mode, dagger, exponent)"""
+        def __init__(s, factors):
+            s.f = list(factors)
+
+        def m_binop(s, e, op, other, reflected):
+            if isinstance(op, ast.Mult) and isinstance(other, W):
+                return W(other.f + s.f) if reflected else W(s.f + other.f)
+            if isinstance(op, ast.Add):
+                if isinstance(other, int) and other == 0:
+                    return Sum([s])
+                if isinstance(other, Sum):
+                    return Sum(other.items + [s]) if reflected else Sum([s] + other.items)
+            return NotImplemented
+
+    class Sum(Model):
+        def __init__(s, items):
+            s.items = list(items)
+
+        def m_binop(s, e, op, other, reflected):
+            if isinstance(op, ast.Add) and isinstance(other, W):
+                return Sum([other] + s.items) if reflected else Sum(s.items + [other])
+            return NotImplemented
+
+    class Op(Model):
+        def __init__(s, i, dag=False):
+            s.i, s.dag = i, dag
+
+        def m_getattr(s, e, name):
+            if name == "adjoint":
+                return Builtin("adjoint", lambda e_: Op(s.i, not s.dag))
+            raise Unsupported(f"operator.{name}")
+
+        def m_binop(s, e, op, other, reflected):
+            if isinstance(op, ast.Pow) and not reflected:
+                return W([("op", s.i, s.dag, zi(other))])
+            return NotImplemented
+
+    MAP = T("placeholder-to-number-operator map")
+
+    class Coef(W):
+        def __init__(s, t, replaced=None):
+            super().__init__([("coef", t, replaced)])
+            s.t, s.replaced = t, replaced
+
+        def m_getattr(s, e, name):
+            if name == "xreplace":
+                return Builtin("xreplace", lambda e_, m: Coef(s.t, m))
+            raise Unsupported(f"coefficient.{name}")
+
+    def harness(eng):
+        ops = STup([Op(i) for i in range(nops)], None, True)
+        p = [[eng.fresh(f"p_{t}_{j}") for j in range(nops)] for t in range(nterms)]
+        coefs = [Coef(t) for t in range(nterms)]
+        terms = STup([STup([STup([SI(x) for x in p[t]]), coefs[t]]) for t in range(nterms)])
+
+        class Self(Model):
+            def m_getattr(s, e, name):
+                if name == "operators":
+                    return ops
+                if name == "args":
+                    return STup([ops, terms])
+                if name == "_placeholder_to_number_operator":
+                    return MAP
+                raise Unsupported(f"self.{name}")
+        eng.globals.update({"Zero": 0})
+        res = eng.call(Closure(node, Env(None, {}), "as_expr"), [Self()], {})
+        if nterms == 0:
+            eng.oblige("no-terms:Zero", z3.BoolVal(isinstance(res, int) and res == 0))
+            return
+        ok = isinstance(res, Sum) and len(res.items) == nterms
+        eng.oblige("result-is-the-sum-of-one-word-per-term-in-term-order", z3.BoolVal(ok), detail=f"{type(res).__name__}")
+        if not ok:
+            return
+        for t, w in enumerate(res.items):
+            f = w.f
+            cpos = [k for k, x in enumerate(f) if x[0] == "coef"]
+            okc = len(cpos) == 1 and f[cpos[0]][1] == t and f[cpos[0]][2] is MAP
+            eng.oblige(f"term{t}:coefficient-occurs-once-with-placeholders-replaced", z3.BoolVal(okc), detail=f"{[x[:3] for x in f]}")
+            if not okc:
+                continue
+            left, right = f[:cpos[0]], f[cpos[0] + 1:]
+            li, ri = [x[1] for x in left], [x[1] for x in right]
+            eng.oblige(f"term{t}:left-of-the-coefficient-creation-operators-in-operator-order", z3.BoolVal(all(x[2] for x in left) and li == sorted(set(li))), detail=f"{li}")
+            eng.oblige(f"term{t}:right-of-the-coefficient-annihilation-operators-in-reverse-operator-order",
+                       z3.BoolVal(all(not x[2] for x in right) and ri == sorted(set(ri), reverse=True)), detail=f"{ri}")
+            for j in range(nops):
+                lj = [x for x in left if x[1] == j]
+                rj = [x for x in right if x[1] == j]
+                eng.oblige(f"term{t}:mode{j}:creation-exponent-is-max(-p,0)", (lj[0][3] == -p[t][j]) if lj else (p[t][j] >= 0))
+                if lj:
+                    eng.oblige(f"term{t}:mode{j}:creation-factor-only-for-non-positive-power", p[t][j] <= 0)   # a factor with exponent 0 is the identity
+                eng.oblige(f"term{t}:mode{j}:annihilation-exponent-is-max(p,0)", (rj[0][3] == p[t][j]) if rj else (p[t][j] <= 0))
+                if rj:
+                    eng.oblige(f"term{t}:mode{j}:annihilation-factor-only-for-non-negative-power", p[t][j] >= 0)
+
+    def harness0(eng):
+        c = T("constant")
+        for tm in ({(): c}, {}):
+            class Self(Model):
+                def m_getattr(s, e, name):
+                    if name == "operators":
+                        return STup([], None, True)
+                    if name == "terms":
+                        return dict(tm)
+                    raise Unsupported(f"self.{name}")
+            eng.globals.update({"Zero": 0, "iter": Builtin("iter", lambda e, x: e.as_seq(x)),
+                                "next": Builtin("next", lambda e, x: e.as_seq(x).items[0])})
+            res = eng.call(Closure(node, Env(None, {}), "as_expr"), [Self()], {})
+            eng.oblige("no-operators:the-constant-or-Zero", z3.BoolVal((res is c) if tm else (isinstance(res, int) and res == 0)))
+
+    if nops == 0:
+        r = run_unit("number_ordered_form:as_expr[no operators]", harness0, functions=[(MODULE, "NumberOrderedForm.as_expr")], timeout_ms=timeout_ms)
+        return r
+    r = run_unit(f"number_ordered_form:as_expr[{nops} operators,{nterms} terms]", harness, functions=[(MODULE, "NumberOrderedForm.as_expr")], timeout_ms=timeout_ms)
+    r.bounded.append(f"{nops} operators, {nterms} terms (powers symbolic integers, coefficients opaque)")
+    r.notes.append("values are words over opaque factors; sympy's reordering of factors it regards as commutative is outside (F-ASEXPR)")
+    return r
